@@ -457,6 +457,12 @@ def check_e2e(ctx, problem, cfg, prop='C01', label='random'):
     ctx.count('e2e:encoding:%s' % cfg['encoding'])
     ctx.count('e2e:workers:%d' % cfg['n_processors'])
     ctx.count('e2e:%s' % ('flatten' if cfg['flatten'] else 'noflatten'))
+    if cfg['flatten'] and cfg['drop_level'] in tree['hierarchy']:
+        ctx.count('e2e:flatten+drop')
+    if cfg['n_runners_up'] == 0:
+        ctx.count('e2e:no-runners-up')
+    if cfg['bootstrap_iteration'] == 1:
+        ctx.count('e2e:single-iteration')
     ctx.count('e2e:drop:%s' % (
         'none' if cfg['drop_level'] is None else
         'absent' if cfg['drop_level'] not in tree['hierarchy'] else
@@ -525,6 +531,14 @@ def run_e2e(ctx, n):
         h = problem['tree']['hierarchy']
         if i % 7 == 3 and len(h) > 2:
             cfg['drop_level'] = ctx.rng.choice(h[1:-1])
+        if i % 9 == 4 and len(h) > 1:
+            # options crossed on purpose: flatten AND an existing drop_level,
+            # no runners-up, a single iteration
+            cfg['flatten'] = True
+            cfg['drop_level'] = ctx.rng.choice(h[:-1])
+            if i % 2:
+                cfg['n_runners_up'] = 0
+                cfg['bootstrap_iteration'] = 1
         check_e2e(ctx, problem, cfg)
 
 
